@@ -77,11 +77,8 @@ struct UBuf {   // exact-size heap copy: an over-read of the NUL-terminated argu
 
 // known findings (root causes confirmed by hand): id of the finding this string runs into, or ""
 static std::string known_class(const ustr &s) {
-    // F-CRLF-FIRST: the first line terminator of the string is CR LF -> length_first is reported as 0
-    for (size_t i = 0; i < s.size(); i++) {
-        if (s[i] == u'\n') break;
-        if (s[i] == u'\r') { if (i + 1 < s.size() && s[i + 1] == u'\n') return "F-CRLF-FIRST"; break; }
-    }
+    // (F-CRLF-FIRST -- first terminator CR LF gave length_first 0 -- is fixed in /repo: no class is excluded any more)
+    (void) s;
     return "";
 }
 // smallest change that takes a generated string out of a known finding's class (the class stays counted)
